@@ -10,7 +10,6 @@
 use crate::c11_world::{Fmt, Item, PMap, PNode, PRange, Resp};
 
 pub struct QCtx<'a> {
-    pub fmt: Fmt,
     /// names of all certificates the client can obtain and validate
     pub cert_names: &'a [String],
     /// beacons of those certificates
@@ -51,12 +50,13 @@ fn dec(n: u64) -> String {
 fn item_edits(it: &Item, cx: &QCtx) -> Vec<(&'static str, String, Item)> {
     let mut v: Vec<(&'static str, String, Item)> = vec![];
     let str_edits = |s: &str| -> Vec<(String, String)> {
-        let mut e = vec![(format!("append 0"), format!("{s}0"))];
-        if s.len() > 1 {
-            e.push(("drop last char".into(), s[..s.len() - 1].to_string()));
-            e.push(("drop first char".into(), s[1..].to_string()));
-            let mid = s.len() / 2;
-            e.push(("insert /".into(), format!("{}/{}", &s[..mid], &s[mid..])));
+        let cs: Vec<char> = s.chars().collect();
+        let mut e = vec![("append 0".to_string(), format!("{s}0"))];
+        if cs.len() > 1 {
+            e.push(("drop last char".into(), cs[..cs.len() - 1].iter().collect()));
+            e.push(("drop first char".into(), cs[1..].iter().collect()));
+            let mid = cs.len() / 2;
+            e.push(("insert /".into(), format!("{}/{}", cs[..mid].iter().collect::<String>(), cs[mid..].iter().collect::<String>())));
         }
         e.push(("append /".into(), format!("{s}/")));
         e
@@ -192,6 +192,7 @@ fn string_number_moves(a: &str, n: u64) -> Vec<(String, String, u64)> {
         let tail: String = a.chars().rev().take(k).collect::<Vec<_>>().into_iter().rev().collect();
         if tail.len() == k
             && a.len() > k
+            && a.is_char_boundary(a.len() - k)
             && tail.bytes().all(|c| c.is_ascii_digit())
             && let Ok(x) = format!("{tail}{sn}").parse::<u64>()
         {
